@@ -6,15 +6,17 @@ Written once, generic in the number carrier `Num α` (DESIGN §2.3): the driver 
 the *same definitions* at any ordered field, with `sqrt` a parameter.
 
 Python as written (quirks kept):
-* `_combine_by_ckey`: dict in insertion order keyed by the STRING `f"{kind}:{id}:{attr}"` (so ids
-  containing `:` can collide), first-listed exemplar keeps kind/id/attr, the contributions to a key
+* `_combine_by_ckey`: dict in insertion order keyed by `_canonical_key` = the tuple
+  `(f"{kind}:{id}:{attr}", kind, id, attr)` (string order as documented, injective in the target),
+  first-listed exemplar keeps kind/id/attr, the contributions to a key
   are collected and summed in ascending order of value (`_sum_canonical`, fix
   `proposed_fixes/C03_combine_sum_canonical_order.diff`), `_min_optional_int` on `op_idx`/`idx`,
   output `sorted` by the string key.
 * `_collect_blocked_ops`: empty kind skipped, falsy cooldown skipped, `isinstance(last_t, int)`,
   `turn - last_t < int(cd)`.
 * `_novelty_clamp`: `cap = abs(cap)`, strict `mag > cap`, sign test `d.delta > 0`.
-* `_l2_scale`: `s` accumulated from `0.0` left to right, `norm <= cap or norm == 0.0` keeps the list.
+* `_l2_scale`: `norm = _l2_norm(deltas)` (`s` accumulated from `0.0` left to right; hypot-style
+  fallback below `2^-512`), `norm <= cap or norm == 0.0` keeps the list.
 * `_churn_cap`: `n <= k` keeps the list *unsorted*; otherwise stable sort by the tuple
   `(-abs(delta), ckey)` and slice `[:k]` (negative `k` slices from the end, as Python does).
 * final `sorted(approved, key=ckey)`; reasons in pipeline order; metrics.
@@ -55,8 +57,20 @@ structure Input (α : Type) where
 
 variable {α : Type}
 
-/-- `_canonical_key`: `f"{kind}:{id}:{attr}"` (58 = `:`). -/
-def ckey (d : Delta α) : Str := d.kind ++ 58 :: (d.id ++ 58 :: d.attr)
+/-- the display string `f"{kind}:{id}:{attr}"` (58 = `:`) — the documented sort order -/
+def skey (d : Delta α) : Str := d.kind ++ 58 :: (d.id ++ 58 :: d.attr)
+
+/-- every code point shifted by one, so that `0` is free as a separator below every symbol -/
+def enc (s : Str) : Str := s.map (· + 1)
+
+/-- `_canonical_key`: the tuple `(f"{kind}:{id}:{attr}", kind, id, attr)` (fix
+`proposed_fixes/C03_t4_order_ckey-collision.diff`): ordered by the string as before, injective
+in the target because the components follow it.  Python compares tuples component by component
+(first difference under `==`, then `<`); flattening the components with a separator that sorts
+below every symbol gives exactly that order under the code-point lexicographic `lexLe`, so the key
+stays a `Str` and every order lemma about keys applies unchanged. -/
+def ckey (d : Delta α) : Str :=
+  enc (skey d) ++ 0 :: (enc d.kind ++ 0 :: (enc d.id ++ 0 :: enc d.attr))
 
 def ckeyLe (a b : Delta α) : Bool := lexLe (ckey a) (ckey b)
 
@@ -166,17 +180,40 @@ def sumSq [Num α] (ds : List (Delta α)) : α :=
 
 def scaleBy [Num α] (s : α) (d : Delta α) : Delta α := { d with delta := Num.mul d.delta s }
 
+def sqr [Num α] (x : α) : α := Num.mul x x
+
+/-- `_SUMSQ_TINY = 2.0 ** -512`, built from `1` and `2` by nine exact squarings of `1/2`
+(bit-exact at `Float`; at an ordered field just some number — no proof depends on its value). -/
+def tinySumSq [Num α] : α :=
+  sqr (sqr (sqr (sqr (sqr (sqr (sqr (sqr (sqr (Num.div Num.one (Num.add Num.one Num.one))))))))))
+
+/-- `m = 0.0; for d: a = abs(d.delta); if a > m: m = a` -/
+def maxAbs [Num α] (ds : List (Delta α)) : α :=
+  ds.foldl (fun m d => if Num.lt m (Num.abs d.delta) then Num.abs d.delta else m) Num.zero
+
+/-- `t = 0.0; for d: r = d.delta / m; t += r * r` -/
+def sumSqRel [Num α] (m : α) (ds : List (Delta α)) : α :=
+  ds.foldl (fun t d => Num.add t (Num.mul (Num.div d.delta m) (Num.div d.delta m))) Num.zero
+
+/-- `_l2_norm` (fix `proposed_fixes/C03_t4_l2_tiny-cap.diff`): the plain `sqrt(Σδ²)` whenever the sum
+of squares is at least `2^-512` (bit-identical to the old code there), otherwise the largest
+magnitude is factored out so the squares cannot underflow; `0` only when every delta is `0`. -/
+def l2Norm [Num α] (sqrt : α → α) (ds : List (Delta α)) : α :=
+  if Num.le tinySumSq (sumSq ds) then sqrt (sumSq ds)
+  else if Num.beq (maxAbs ds) Num.zero then Num.zero
+  else Num.mul (maxAbs ds) (sqrt (sumSqRel (maxAbs ds) ds))
+
 /-- Does `_l2_scale` return its input unchanged? -/
 def l2Keeps [Num α] (sqrt : α → α) (ds : List (Delta α)) (cap : α) : Bool :=
-  ds.isEmpty || Num.le (sqrt (sumSq ds)) cap || Num.beq (sqrt (sumSq ds)) Num.zero
+  ds.isEmpty || Num.le (l2Norm sqrt ds) cap || Num.beq (l2Norm sqrt ds) Num.zero
 
 /-- `_l2_scale`, second component. -/
 def l2Factor [Num α] (sqrt : α → α) (ds : List (Delta α)) (cap : α) : α :=
-  if l2Keeps sqrt ds cap then Num.one else Num.div cap (sqrt (sumSq ds))
+  if l2Keeps sqrt ds cap then Num.one else Num.div cap (l2Norm sqrt ds)
 
 /-- `_l2_scale`, first component. -/
 def l2Scale [Num α] (sqrt : α → α) (ds : List (Delta α)) (cap : α) : List (Delta α) :=
-  if l2Keeps sqrt ds cap then ds else ds.map (scaleBy (Num.div cap (sqrt (sumSq ds))))
+  if l2Keeps sqrt ds cap then ds else ds.map (scaleBy (Num.div cap (l2Norm sqrt ds)))
 
 def scaled [Num α] (sqrt : α → α) (inp : Input α) : List (Delta α) :=
   l2Scale sqrt (clamped inp) inp.capL2
